@@ -74,6 +74,30 @@ func (r *Report) Check(rule, construct string, pos token.Pos, ok bool, okReason,
 	return r.Add(rule, construct, pos, Violated, badReason)
 }
 
+// ImportFrom copies the obligations of the given rules of another property's report under one
+// rule name of this report (a clause shared by two properties is decided by one rule body).
+func (r *Report) ImportFrom(sub *Report, newRule string, rules ...string) int {
+	want := map[string]bool{}
+	for _, x := range rules {
+		want[x] = true
+	}
+	n := 0
+	for _, o := range sub.Obls {
+		if !want[o.Rule] {
+			continue
+		}
+		c := *o
+		c.Construct = sub.Property + " " + o.Rule + ": " + o.Construct
+		c.Rule = newRule
+		r.Obls = append(r.Obls, &c)
+		n++
+	}
+	for _, b := range sub.broken {
+		r.broken = append(r.broken, sub.Property+": "+b)
+	}
+	return n
+}
+
 // Anchor records a resolved anchor (function, field, const) in evidence.
 func (r *Report) Anchor(s string) { r.Anchors = append(r.Anchors, s) }
 
